@@ -528,12 +528,12 @@ func main() {
 	}
 	rule := "one function literal per (statement x = e | x op= e | x <<= n | x >>= n | x++ | x--, kind of the 17 basic kinds, place local|cap1..4|blk2|glob0..4|boxed0..4|ptr|ptrf|arr|arrf|slice|slicef|map|mapf|mapmiss|mapintf|mff|field|pfield|fieldf|nest|blank, " +
 		"right operand = variable | logged call | constant (generic and 0, 1, -1, +-2^k, min, max)), valid Go combinations only, every (operator, kind, variable place, const/expr) combination at least once and the other place shapes rotating in the quick tier; " +
-		"plus multi-assignment programs (swaps / rotations over locals, captured variables, globals, slice and map elements, fields, pointers, blanks, multi-valued calls, the Go specification examples, also at top level) and random sequences of 4-10 statements; " +
+		"plus multi-assignment programs (swaps / rotations over locals, captured variables, globals, slice and map elements, fields, pointers, blanks, multi-valued calls, the Go specification examples, also at top level; map elements keyed by struct / array / pointer / interface / nested-struct variables, index holders (struct field, array element, pointer) and containers (map, slice, array pointer, struct) that the same statement assigns before or after the element, directly, through a closure or from a multi-valued call) and random sequences of 4-10 statements; " +
 		"each compiled ONCE in the real interpreter (top-level programs: Interp.Compile + RunExpr per tuple) and called on boundary (min, max, 0, +-1, min/-1, x/0, shift counts 0,1,w-1,w,w+1,63,64,65,255,-1,min; floats +-0, NaN, +-Inf ...) and PRNG operand tuples; " +
 		"oracle = the same function literal compiled by go build (go 1.18 module) on the same tuples: the returned canonical string (place before, place, place after, call log; sequences: all variables) and the panic class must be equal; programs rejected by go/types must be rejected; " +
 		"non-trivial = not all operands zero/false/empty; distinct by SHA-256 of (program key, operands)"
 	rep := vh.NewReport(a, rule)
-	wd := vh.NewWatchdog(rep, 90*time.Second)
+	wd := vh.NewWatchdog(rep, 10*time.Minute) // generous: under heavy machine load a single compile + call batch can take minutes
 	tStart := time.Now()
 
 	g := &Gen{a: a, thorough: a.Thorough(), pools: map[string][]Val{}}
